@@ -23,6 +23,8 @@ import (
 	"fmt"
 	"reflect"
 	"sync"
+
+	"github.com/cloudwego/eino/schema"
 )
 
 type chanCall struct {
@@ -72,6 +74,9 @@ type runner struct {
 	edgeHandlerManager      *edgeHandlerManager
 	preNodeHandlerManager   *preNodeHandlerManager
 	preBranchHandlerManager *preBranchHandlerManager
+
+	// nodes (or END) whose input is assembled by field mappings
+	mappedInputNodes map[string]bool
 
 	checkPointer         *checkPointer
 	interruptBeforeNodes []string
@@ -790,10 +795,18 @@ func (r *runner) initChannelManager(isStream bool) *channelManager {
 
 	chs := make(map[string]channel)
 	for ch := range r.chanSubscribeTo {
-		chs[ch] = builder(r.controlPredecessors[ch], r.dataPredecessors[ch], r.chanSubscribeTo[ch].action.inputZeroValue, r.chanSubscribeTo[ch].action.inputEmptyStream)
+		zeroValue, emptyStream := r.chanSubscribeTo[ch].action.inputZeroValue, r.chanSubscribeTo[ch].action.inputEmptyStream
+		if r.mappedInputNodes[ch] {
+			zeroValue, emptyStream = zeroMappedInput, emptyMappedInputStream
+		}
+		chs[ch] = builder(r.controlPredecessors[ch], r.dataPredecessors[ch], zeroValue, emptyStream)
 	}
 
-	chs[END] = builder(r.controlPredecessors[END], r.dataPredecessors[END], r.outputZeroValue, r.outputEmptyStream)
+	if r.mappedInputNodes[END] {
+		chs[END] = builder(r.controlPredecessors[END], r.dataPredecessors[END], zeroMappedInput, emptyMappedInputStream)
+	} else {
+		chs[END] = builder(r.controlPredecessors[END], r.dataPredecessors[END], r.outputZeroValue, r.outputEmptyStream)
+	}
 
 	dataPredecessors := make(map[string]map[string]struct{})
 	for k, vs := range r.dataPredecessors {
@@ -820,6 +833,15 @@ func (r *runner) initChannelManager(isStream bool) *channelManager {
 		edgeHandlerManager:    r.edgeHandlerManager,
 		preNodeHandlerManager: r.preNodeHandlerManager,
 	}
+}
+
+// The input of a node with field mappings is assembled from map[string]any values, which the node's
+// pre-handler (the field-mapping converter) turns into the declared input type: when none of its data
+// predecessors ran, "no input" must be the empty map, not the zero value of the declared type.
+func zeroMappedInput() any { return map[string]any{} }
+
+func emptyMappedInputStream() streamReader {
+	return packStreamReader(schema.StreamReaderFromArray([]map[string]any{{}}))
 }
 
 func (r *runner) toComposableRunnable() *composableRunnable {
